@@ -595,6 +595,7 @@ impl C19 {
             let n = xot.add_name("zzbad");
             xot.new_processing_instruction(n, Some("x > y"))
         };
+        let chunk = if rng.bool() { usize::MAX } else { 1 + rng.below(9) };
         let reuse_after_failure = rng.chance(1, 4);
         if reuse_after_failure {
             ctx.count("html5_value_reused_after_a_failed_call");
@@ -609,21 +610,22 @@ impl C19 {
             }
             match entry {
                 0 if plain_params => h.to_string(target),
+                // (the writers take only a few bytes per call in every other case)
                 1 if plain_params => {
-                    let mut v = Vec::new();
+                    let mut v = ChunkWriter::new(chunk);
                     let r = h.write(target, &mut v);
-                    from_bytes(r, v)
+                    from_bytes(r, v.buf)
                 }
                 2 => {
-                    let mut v = Vec::new();
+                    let mut v = ChunkWriter::new(chunk);
                     let r = h.serialize_write(params.clone(), target, &mut v);
-                    from_bytes(r, v)
+                    from_bytes(r, v.buf)
                 }
                 4 => h.serialize_string_with_normalizer(params.clone(), target, TestNormalizer),
                 5 => {
-                    let mut v = Vec::new();
+                    let mut v = ChunkWriter::new(chunk);
                     let r = h.serialize_write_with_normalizer(params.clone(), target, &mut v, TestNormalizer);
-                    from_bytes(r, v)
+                    from_bytes(r, v.buf)
                 }
                 _ => h.serialize_string(params.clone(), target),
             }
@@ -694,7 +696,50 @@ impl C19 {
         }
         let sub = match sub {
             Some(s) => s,
-            None => return, // single leaves: totality and doctype only
+            None => {
+                // single leaves: totality and doctype; for a text node - unless it sits in script / style or in a requested
+                // CDATA-section element - also the escaping rule: '<' and '&' from text never appear raw
+                if xot.is_text(target) {
+                    let raw_allowed = xot.parent(target).map_or(false, |p| {
+                        xot.element(p).map_or(false, |e| {
+                            let (l, u) = xot.name_ns_str(e.name());
+                            let html = u.is_empty() || u == XHTML_NS;
+                            (html && (l.eq_ignore_ascii_case("script") || l.eq_ignore_ascii_case("style"))) || cdata_q.iter().any(|q| q.local == l && q.ns == u)
+                        })
+                    });
+                    if !raw_allowed {
+                        let body = &out["<!DOCTYPE html>".len()..];
+                        let bytes = body.as_bytes();
+                        let mut bad: Option<&str> = None;
+                        for (i, c) in body.char_indices() {
+                            if c == '<' {
+                                bad = Some("raw-lt-from-text");
+                                break;
+                            }
+                            if c == '&' {
+                                let rest = &body[i + 1..];
+                                let end = rest.find(';');
+                                let ok = end.map_or(false, |e| e > 0 && e <= 10 && rest[..e].chars().all(|x| x.is_ascii_alphanumeric() || x == '#'));
+                                if !ok {
+                                    bad = Some("raw-amp-from-text");
+                                    break;
+                                }
+                            }
+                        }
+                        let _ = bytes;
+                        if let Some(b) = bad {
+                            ctx.violation(
+                                "a text node serialised on its own comes out with a raw '<' or '&'",
+                                format!("C19/{}/single-text-node/{}", b, kind),
+                                base(format!("text {:?}", xot.text_str(target).unwrap_or("")), &out),
+                            );
+                            return;
+                        }
+                        ctx.count("single_text_nodes_escaped");
+                    }
+                }
+                return;
+            }
         };
         {
             let mut ns_pi = false;
